@@ -8,8 +8,10 @@ with deps= / soft_deps= / add_dependency()), `valjean.cambronne.main.make_parser
 `process_options` + `args.func(args, config)` (what `main()` does, keeping the returned environment) whenever the
 command line matters, `RunCommand().execute(Namespace, Config)` otherwise, plus direct calls of `run_job`,
 `collect_tasks`, `close_dependency_graph`.  The graphs and the environment handed to the scheduler are recorded by a
-pass-through wrapper around `commands.run.schedule`; what job() received and which tasks were executed come from a
-side file the job file writes.
+pass-through wrapper around `commands.run.schedule` (when the run command has no such helper: around the constructor and
+the `schedule` method of `cosette.scheduler.Scheduler`; when that is not possible either the clauses GRAPH_CLAUSES are
+not judged and one DRIFT line says so); what job() received and which tasks were executed come from a side file the job
+file writes.
 
 spec -> code : TLC enumerates every run of Pipeline.tla that deviates from the plainest one in at most W places
                (universe of 4-5 tasks: dependencies, shared names, task behaviours, job() list, how deps are passed,
@@ -47,6 +49,8 @@ HANG_TIMEOUT = 20
 WITNESSES = ['W_Dup', 'W_TwoDups', 'W_SameNameOut', 'W_SoftOnly', 'W_Transitive', 'W_Uncollected', 'W_Repeat', 'W_EmptyJob', 'W_Skipped',
              'W_Failed', 'W_SoftFailRun', 'W_NoDir', 'W_BothEdge', 'W_Rerun', 'W_MayRerun', 'W_RerunOther', 'W_Mismatch', 'W_KwError', 'W_KwOverride',
              'W_KwEqInValue', 'W_SelByKw', 'W_Missing', 'W_DepsType']
+# the clauses that need the recorder around the scheduler (Runner.recorder)
+GRAPH_CLAUSES = ('hard-graph-nodes', 'hard-graph-edges', 'soft-graph-nodes', 'soft-graph-edges', 'read-env')
 QUICK_UNREACHED = ['W_TwoDups', 'W_Rerun', 'W_MayRerun']    # need 5 resp. 3 deviations from the plainest run: thorough tier only (and random runs)
 
 ALL = dict(DepKinds=frozenset(['none', 'hard', 'soft', 'both']), Kinds=frozenset(['ok', 'ok0', 'ko', 'raise']),
@@ -196,22 +200,59 @@ class Runner:
         self.counter = 0
         self.hung = 0
         self.seen = None
-        self._orig_schedule = run_mod.schedule
         sys.dont_write_bytecode = True
+        # where the graphs and the environment handed to the scheduler are recorded
+        self.recorder, self._orig = None, {}
+        if callable(getattr(run_mod, 'schedule', None)):
+            self.recorder, self._orig = 'commands.run.schedule', dict(schedule=run_mod.schedule)
+        else:
+            try:
+                from valjean.cosette.scheduler import Scheduler
+                self.Scheduler, self._orig = Scheduler, dict(init=Scheduler.__init__, schedule=Scheduler.schedule)
+                self.recorder = 'cosette.scheduler.Scheduler'
+            except (ImportError, AttributeError):
+                pass
 
-    # pass-through recorder around commands.run.schedule
-    def _schedule(self, *, hard_graph, soft_graph, env, config=None, workers=1):
+    def _record(self, hard_graph, soft_graph, env):
         TS = self.task_mod.TaskStatus
 
         def proj(g):
-            nodes = list(g.nodes())
+            nodes = list(g.nodes()) if g is not None else []
             return ([getattr(t, 'uid', -1) for t in nodes],
                     sorted([getattr(t, 'uid', -1), getattr(d, 'uid', -1)] for t in nodes for d in g.dependencies(t)))
         hn, he = proj(hard_graph)
         sn, se = proj(soft_graph)
-        env0 = sorted(_name_int(k) for k, v in env.items() if isinstance(v, dict) and v.get('status') == TS.DONE)
-        self.seen = dict(hnodes=hn, hedges=he, snodes=sn, sedges=se, env0=env0, workers=workers)
-        return self._orig_schedule(hard_graph=hard_graph, soft_graph=soft_graph, env=env, config=config, workers=workers)
+        env0 = sorted(_name_int(k) for k, v in (env.items() if env is not None else ()) if isinstance(v, dict) and v.get('status') == TS.DONE)
+        self.seen = dict(hnodes=hn, hedges=he, snodes=sn, sedges=se, env0=env0)
+
+    # pass-through recorder around commands.run.schedule
+    def _schedule(self, *, hard_graph, soft_graph, env, **kw):
+        self._record(hard_graph, soft_graph, env)
+        return self._orig['schedule'](hard_graph=hard_graph, soft_graph=soft_graph, env=env, **kw)
+
+    def _install(self):
+        runner = self
+        if self.recorder == 'commands.run.schedule':
+            self.run_mod.schedule = self._schedule
+        elif self.recorder == 'cosette.scheduler.Scheduler':
+            # the run command has no helper of its own: the graphs are seen when the Scheduler is constructed (hard_graph= and
+            # soft_graph= are keyword-only there), the environment when its schedule() is called
+            graphs = {}
+
+            def init(this, *args, **kw):
+                graphs[id(this)] = (kw.get('hard_graph'), kw.get('soft_graph'))
+                runner._orig['init'](this, *args, **kw)
+
+            def schedule(this, *args, **kw):
+                runner._record(*graphs.get(id(this), (None, None)), kw.get('env'))
+                return runner._orig['schedule'](this, *args, **kw)
+            self.Scheduler.__init__, self.Scheduler.schedule = init, schedule
+
+    def _uninstall(self):
+        if self.recorder == 'commands.run.schedule':
+            self.run_mod.schedule = self._orig['schedule']
+        elif self.recorder == 'cosette.scheduler.Scheduler':
+            self.Scheduler.__init__, self.Scheduler.schedule = self._orig['init'], self._orig['schedule']
 
     def classify(self, ex):
         msg = str(ex)
@@ -286,7 +327,7 @@ class Runner:
                     break
                 rounds.append(self.one_round(case, rnd, cfgfile, jobfile, side, outroot, logroot, use_parser))
         finally:
-            self.run_mod.schedule = self._orig_schedule
+            self._uninstall()
             for k in [k for k, m in sys.modules.items() if (getattr(m, '__file__', None) or '').startswith(cdir)]:
                 del sys.modules[k]
             if saved_mod is not None:
@@ -304,7 +345,7 @@ class Runner:
         if os.path.exists(side):
             os.remove(side)
         self.seen = None
-        self.run_mod.schedule = self._schedule
+        self._install()
         obs = dict(err='', dups=[], msgok=False, jobfile='none', received=dict(sel='', tag='', key=''), returned=[], collected=[],
                    hnodes=[], hedges=[], snodes=[], sedges=[], env0=[], done=[], failedS=[], skipped=[], nonfinal=[],
                    executed=[], ffExists=False, ffLines=[], disk=[], diskbad=0, detail='')
@@ -330,7 +371,7 @@ class Runner:
         th = threading.Thread(target=pipeline, daemon=True)
         th.start()
         th.join(HANG_TIMEOUT if self.hung < 5 else 3)
-        self.run_mod.schedule = self._orig_schedule
+        self._uninstall()
         if th.is_alive():
             obs['err'] = 'hang'
             self.hung += 1
@@ -398,11 +439,12 @@ def _worker(inp, outp):
     os.makedirs(runner.scratch, exist_ok=True)
     out = [runner.run_case(case, use_parser) for case, use_parser in job['items']]
     with open(outp, 'w') as f:
-        json.dump(out, f)
+        json.dump(dict(recorder=runner.recorder, rounds=out), f)
 
 
 def replay_many(items, scratch):
-    """Run the cases on the real code in a few fresh processes (every run is independent of the others); results in order."""
+    """Run the cases on the real code in a few fresh processes (every run is independent of the others); results in order,
+    and where the graphs handed to the scheduler were recorded (Runner.recorder; None: they could not be)."""
     import subprocess
     nproc = max(1, min(6, tlc.NCPU // 2, len(items) // 50 + 1))
     parts = []
@@ -419,15 +461,16 @@ def replay_many(items, scratch):
         except subprocess.TimeoutExpired as ex:
             raise tlc.MachineryError('conf_pipeline worker timed out') from ex
         if p.returncode != 0 or not os.path.exists(io[1]):
-            raise tlc.MachineryError('conf_pipeline worker failed (rc=%s):\n%s' % (p.returncode, (p.stdout + p.stderr)[-3000:]))
+            why = ([l for l in p.stderr.strip().splitlines() if l.strip()] or ['no output'])[-1].strip()  # the exception line of the traceback
+            raise tlc.MachineryError('conf_pipeline worker failed (rc=%s): %s\n%s' % (p.returncode, why[:250], (p.stdout + p.stderr)[-3000:]))
         with open(io[1]) as f:
             return json.load(f)
     with ThreadPoolExecutor(max_workers=nproc) as tp:
         outs = list(tp.map(one, parts))
     res = [None] * len(items)
     for i, out in enumerate(outs):
-        res[i::nproc] = out
-    return res
+        res[i::nproc] = out['rounds']
+    return res, outs[0]['recorder']
 
 
 # ---------------------------------------------------------------------------------------------
@@ -734,7 +777,11 @@ def run(ctx, wd):
     rcases = [random_case(rng) for _ in range(ctx.pick(250, 3000))]
     seconds['read_dumps'] = round(time.time() - t0, 1)
     t0 = time.time()
-    all_obs = replay_many([(case, True if name.startswith('cmdline') else None) for name, case, _e in enum] + [(c, True) for c in rcases], scratch)
+    all_obs, recorder = replay_many([(case, True if name.startswith('cmdline') else None) for name, case, _e in enum] + [(c, True) for c in rcases], scratch)
+    unjudged = set() if recorder else set(GRAPH_CLAUSES)
+    if unjudged:
+        ctx.drift('extra module Pipeline: neither commands.run.schedule nor cosette.scheduler.Scheduler can be wrapped to see the graphs and the '
+                  'environment handed to the scheduler: clauses %s not judged, everything else is' % ', '.join(GRAPH_CLAUSES))
     seconds['implementation_runs'] = round(time.time() - t0, 1)
     t0 = time.time()
     sample = []
@@ -746,7 +793,7 @@ def run(ctx, wd):
         if len(obs) != len(exp):
             bad.add((0, 'rounds'))
         for r, (m, o) in enumerate(zip(exp, obs), 1):
-            for cl in clauses(m, o):
+            for cl in clauses(m, o) - unjudged:
                 bad.add((r, cl))
         if bad:
             stats['disagreeing_runs'] += 1
@@ -778,7 +825,7 @@ def run(ctx, wd):
         elif which == 2:
             o[0]['done'], o[0]['skipped'] = o[0]['skipped'], o[0]['done']
             expect.append('final-status' if o[0]['done'] != o[0]['skipped'] else None)
-        elif which == 3:
+        elif which == 3 and o[0]['hnodes']:
             o[0]['hedges'] = o[0]['hedges'] + [[o[0]['hnodes'][0], o[0]['hnodes'][0]]]
             expect.append('hard-graph-edges')
         else:
@@ -792,6 +839,9 @@ def run(ctx, wd):
     step = 2000
     for k in range(0, len(batch), step):
         verdicts += judge(ctx, wd, batch[k:k + step], 'batch%d' % k)
+    if unjudged:        # the corrupted executions keep their full verdict
+        keep = range(len(sample), len(sample) + len(corrupted))
+        verdicts = [v if k in keep else {(r, cl) for r, cl in v if cl not in unjudged} for k, v in enumerate(verdicts)]
     for (c, _o, bad), v in zip(sample, verdicts):
         if v != bad:
             raise tlc.MachineryError('conf_pipeline.clauses and PipelineTrace!Clauses disagree on %s: %s vs %s' % (describe(c), sorted(bad), sorted(v)))
@@ -809,16 +859,36 @@ def run(ctx, wd):
     for v in observations.values():
         v.pop('_size', None)
         v.pop('_last', None)
-    ctx.cov['pipeline'] = dict(stats, witnesses=witnessed, seconds=seconds, observations={k: observations[k] for k in sorted(observations)})
-    for key in sorted(observations):
-        v = observations[key]
-        ex = v['example']
-        o = ex['observed']
-        got = ', '.join('%s=%s' % (k, o[k]) for k in ('err', 'detail', 'jobfile', 'received', 'returned', 'collected', 'done', 'failedS', 'skipped',
-                                                       'executed', 'ffExists', 'ffLines', 'disk', 'dups', 'hedges', 'sedges', 'env0', 'also') if k in o)
-        print('OBSERVATION (Pipeline, outside the listed properties) %s: %d cases, e.g. %s; round %d observed: %s' % (
-            key, v['count'], ex['what'], ex['round'], got[:600]))
+    ctx.cov['pipeline'] = dict(stats, witnesses=witnessed, seconds=seconds, scheduler_recorded_at=recorder or 'nowhere',
+                               observations={k: observations[k] for k in sorted(observations)})
+    print_summary('Pipeline', 'pipeline', observations)
     return stats
+
+
+def print_summary(module, name, observations, strip=''):
+    """The ONE line an extra module prints per run (nothing when there is nothing to observe): the classes with their counts,
+    most frequent first, at most 300 characters.  Count and smallest example of every class stay in the evidence
+    (ctx.cov[name]['observations'])."""
+    if not observations:
+        return
+    try:
+        '\u2014\u2026'.encode(getattr(sys.stdout, 'encoding', None) or 'ascii')
+        dash, dots = '\u2014', '\u2026'
+    except (UnicodeError, LookupError):
+        dash, dots = '--', '...'
+    head = 'OBSERVATION (%s, outside the listed properties) %d classes, %d cases: ' % (
+        module, len(observations), sum(v['count'] for v in observations.values()))
+    tail = ' %s details in evidence coverage.%s.observations' % (dash, name)
+    items = ['%s (%d)' % (k[len(strip):] if strip and k.startswith(strip) else k, v['count'])
+             for k, v in sorted(observations.items(), key=lambda kv: (-kv[1]['count'], kv[0]))]
+    room = 300 - len(head) - len(tail)
+    shown = []
+    for n, item in enumerate(items):
+        if len(', '.join(shown + [item])) + (len(dots) + 2 if n + 1 < len(items) else 0) > room:
+            shown.append(dots)
+            break
+        shown.append(item)
+    print(head + ', '.join(shown) + tail)
 
 
 def _jsonable_round(m):
